@@ -1531,7 +1531,7 @@ func enumerate(c *core.Ctx, t *tfile, other *tfile, kind string, onlyType int, s
 
 func tamperEnumeration(c *core.Ctx) {
 	nFiles := c.N(6, 16)
-	stride := c.N(9, 1)
+	stride := c.N(7, 1)
 	pairs := 0
 	for i := 0; i < nFiles; i++ {
 		p := tamperParams(c, i)
@@ -1790,7 +1790,7 @@ func run(c *core.Ctx) {
 	}
 	// (a)(b)(c)
 	t0 := time.Now()
-	nFiles := c.N(140, 900)
+	nFiles := c.N(200, 900)
 	var vm []string
 	for i := 0; i < nFiles; i++ {
 		p := genParams(c, i)
